@@ -26,9 +26,9 @@ PROP = "C14"
 
 def sched_bins():
     build.build_tree("asan")
-    a = build.ensure("asan", bins=("sched",))["sched"]
+    a = build.ensure("asan", bins=("sched", "vmod"))["sched"]
     build.build_tree("tsan")
-    t = build.ensure("tsan", bins=("sched",))["sched"]
+    t = build.ensure("tsan", bins=("sched", "vmod"))["sched"]
     return a, t
 
 
@@ -230,6 +230,21 @@ def run(tier):
         path = os.path.join(cdir, "seed%d.txt" % i)
         with open(path, "w") as f:
             f.write("k = 0;\n%%\n" + text + " print k;")
+        corpus.append("@" + path)
+    # clones share the module objects their variables hold (C17): copying, storing and dropping references to a shared object in
+    # every clone at the same time; each clone prints what a sequential run prints and the object is still usable afterwards
+    env_a["SCHED_UNBAN"] = env_t["SCHED_UNBAN"] = "vmod,vmod2"
+    env_a["VDUMP_NO_OBJECT_ID"] = env_t["VDUMP_NO_OBJECT_ID"] = "1"
+    shared = {
+        "shared-object-copies": ("import vmod; a = vmod(5); t = tab(2, a); u = tup(1, a);",
+                                 "for i in 1 to 4 loop b = a; c = t; c.delete(0); d = u; b = null; c = null; end loop; print a.get() t.at(1).get() u@2.get();"),
+        "shared-object-methods": ("import vmod; a = vmod(5);",
+                                  "for i in 1 to 3 loop b = a.self(); z = a.other(b).get(); b = vmod(a); end loop; print z b.get();"),
+    }
+    for name, (pre, text) in shared.items():
+        path = os.path.join(cdir, name + ".txt")
+        with open(path, "w") as f:
+            f.write(pre + "\n%%\n" + text)
         corpus.append("@" + path)
     for p in corpus:
         jobs.append((asan_exe, p, 2, 2 if tier == "thorough" else 1, 20000, env_a, budget))
